@@ -111,6 +111,7 @@ func runWebUI(env *execenv.Env, opts webUIOptions) error {
 
 	err := execenv.CacheBuildProgressBar(env, events)
 	if err != nil {
+		_ = mrc.Close()
 		return err
 	}
 
@@ -170,6 +171,7 @@ func runWebUI(env *execenv.Env, opts webUIOptions) error {
 		// default to true
 		configOpen = true
 	} else if err != nil {
+		_ = graphqlHandler.Close()
 		return err
 	}
 
@@ -184,6 +186,9 @@ func runWebUI(env *execenv.Env, opts webUIOptions) error {
 
 	err = srv.ListenAndServe()
 	if err != nil && err != http.ErrServerClosed {
+		// the server never ran (port in use, bad address): nobody will send the signal that
+		// triggers the teardown above, give the cache and its lock back here
+		_ = graphqlHandler.Close()
 		return err
 	}
 
